@@ -469,8 +469,8 @@ pub fn run(cfg: &Cfg, rep: &mut Report) -> PropMeta {
     PropMeta {
         id: "C19", level: "exploration",
         rule: cfg.pick(
-            "(A) exhaustive: N in {4,8,16,32} x {BFV,BGV,CKKS} x input representation {coefficient, NTT} x every coefficient index i in [0,N) (extract_lwe + assemble_lwe), every trace parameter l in [0,log2 N] (field_trace_inplace), every pack count k in [1,N] (pack_lwe_ciphertexts), each repeated for 4 plain-modulus/scale families x 2 data levels with random 50..60-bit primes; (B) sampled: N in {64..1024}, all l, boundary+random i, k in {1,2,2^j,2^j+-1,N-1,N}+random. Index-revealing plaintexts, library decryptor and (N<=256) oracle decryptor. distinct = distinct (scheme, N, operation, parameter value, level) cells",
-            "(A) exhaustive: N in {4,8,16,32,64} x {BFV,BGV,CKKS} x input representation {coefficient, NTT} x every coefficient index i in [0,N) (extract_lwe + assemble_lwe), every trace parameter l in [0,log2 N] (field_trace_inplace), every pack count k in [1,N] (pack_lwe_ciphertexts), each repeated for 4 plain-modulus/scale families x 2 data levels with random 50..60-bit primes; (B) sampled: N in {128..4096}, all l, boundary+random i, k in {1,2,2^j,2^j+-1,N-1,N}+random (at N>=2048 the 2^j+-1 triples only for j<=7 and j>=log2 N-1). Index-revealing plaintexts, library decryptor and (N<=256) oracle decryptor. distinct = distinct (scheme, N, operation, parameter value, level) cells"),
+            "(A) exhaustive: N in {4,8,16,32} x {BFV,BGV,CKKS} x input representation {coefficient, NTT} x every coefficient index i in [0,N) (extract_lwe + assemble_lwe), every trace parameter l in [0,log2 N] (field_trace_inplace), every pack count k in [1,N] (pack_lwe_ciphertexts), each repeated for 4 plain-modulus/scale families x 2 data levels with random 50..60-bit primes; (B) sampled: N in {64..1024}, all l, boundary+random i, k in {1,2,2^j,2^j+-1,N-1,N}+random. Index-revealing plaintexts, library decryptor and (N<=256) oracle decryptor. distinct = distinct (scheme, N, operation, parameter value, level) cells. Every extract/assemble cell judges the method form LWECiphertext::assemble_lwe as well and compares it with Evaluator::assemble_lwe",
+            "(A) exhaustive: N in {4,8,16,32,64} x {BFV,BGV,CKKS} x input representation {coefficient, NTT} x every coefficient index i in [0,N) (extract_lwe + assemble_lwe), every trace parameter l in [0,log2 N] (field_trace_inplace), every pack count k in [1,N] (pack_lwe_ciphertexts), each repeated for 4 plain-modulus/scale families x 2 data levels with random 50..60-bit primes; (B) sampled: N in {128..4096}, all l, boundary+random i, k in {1,2,2^j,2^j+-1,N-1,N}+random (at N>=2048 the 2^j+-1 triples only for j<=7 and j>=log2 N-1). Index-revealing plaintexts, library decryptor and (N<=256) oracle decryptor. distinct = distinct (scheme, N, operation, parameter value, level) cells. Every extract/assemble cell judges the method form LWECiphertext::assemble_lwe as well and compares it with Evaluator::assemble_lwe"),
         assumptions: vec![
             "asserted only when the analytic worst case is below the threshold: source noise 21(2N+1)+N+2, one key switch 21*N*sum(q_i)/P + 2(N+1)+1, trace c*e+(c-1)*ks, packing (L=ceil(log2 k)) e+ks*((N/2^L)(4^L-1)/3+N/2^L-1), all doubled, and 16*t*(2e+(c+1)t+1) < q_level (BFV/BGV) resp. c*scale*4 < q_level and tolerance <= 1/(4N) (CKKS); other cases are executed and counted out_of_precondition".into(),
             "CKKS tolerance per coefficient: (2e + c/2 + 2^13)/scale + 2^-48*|expected| (noise bound, encoder rounding, the decoder's word-wise double rounding)".into(),
